@@ -39,6 +39,56 @@ REPLACEMENTS = {
 }
 
 
+# user-provided aggregation specs (GEP 4 syntax) for COMPUTE calls
+AGG_SPECS = {
+    "none": ({}, {}, []),
+    "group_sum": ({"verif_lohn_hh": {"source_col": "bruttolohn_m", "aggr": "sum"}}, {}, ["verif_lohn_hh"]),
+    "group_max": ({"verif_alter_max_fg": {"source_col": "alter", "aggr": "max"}}, {}, ["verif_alter_max_fg"]),
+    "pid_sum": ({}, {"verif_kg_anspr": {"p_id_to_aggregate_by": "p_id_kindergeld_empf", "source_col": "kindergeld_anspruch", "aggr": "sum"}}, ["verif_kg_anspr"]),
+    # overrides an internal by-p_id spec (claims counted for the Erziehungsgeld recipient instead)
+    "pid_override": ({}, {"kindergeld_anz_ansprüche": {"p_id_to_aggregate_by": "p_id_erziehgeld_empf", "source_col": "kindergeld_anspruch", "aggr": "sum"}}, ["kindergeld_m"]),
+    # overrides an internal by-group spec
+    "group_override": ({"anz_kinder_mit_kindergeld_fg": {"source_col": "kind", "aggr": "sum"}}, {}, ["anz_kinder_mit_kindergeld_fg"]),
+    # invalid specs: the call must fail and leave nothing behind
+    "pid_invalid": ({}, {"verif_bad": {"p_id_to_aggregate_by": "p_id_kindergeld_empf", "source_col": "kindergeld_anspruch"}}, ["kindergeld_m"]),
+    "group_invalid": ({"verif_bad_hh": {"aggr": "sum"}}, {}, ["kindergeld_m"]),
+}
+
+
+def derived_sum_columns(functions: dict) -> list:
+    """Names that GETTSIM derives automatically as group sums of an existing function:
+    arguments of some function that carry a group suffix, are not functions themselves,
+    while the name without the suffix is."""
+    import inspect
+
+    from gettsim import config
+
+    sufs = tuple("_" + g for g in config.SUPPORTED_GROUPINGS)
+    out = set()
+    for f in functions.values():
+        try:
+            args = list(inspect.signature(f).parameters)
+        except (TypeError, ValueError):
+            continue
+        for a in args:
+            if a.endswith(sufs) and a not in functions:
+                base = a
+                for sfx in sufs:
+                    if base.endswith(sfx):
+                        base = base[: -len(sfx)]
+                        break
+                if base in functions:
+                    out.add((a, base))
+    return sorted(out)
+
+
+def make_override(name: str, source: str):
+    """A user function that replaces the derived column `name` (twice its own source)."""
+    ns = {}
+    exec(f"def {name}({source}: float) -> float:\n    return 2.0 * {source}\n", ns)  # noqa: S102
+    return ns[name]
+
+
 def identical_copy(f):
     """A new function object with the same code, globals and attributes."""
     g = types.FunctionType(f.__code__, f.__globals__, f.__name__, f.__defaults__, f.__closure__)
@@ -58,10 +108,29 @@ def apply_replacement(functions: dict, variant: str, mode: str):
         name = resolve_name(functions, variant[5:])
         f = identical_copy(functions[name])
         return ({**functions, name: f} if mode == "dict" else [functions, {name: f}]), name
+    if variant.startswith("derived:"):
+        name, f = resolve_derived(functions, variant[8:])
+        if name is None:
+            return functions, None
+        return ({**functions, name: f} if mode == "dict" else [functions, {name: f}]), name
     name, f = REPLACEMENTS[variant]
     if mode == "dict":
         return {**functions, name: f}, name
     return [functions, {name: f}], name
+
+
+def resolve_derived(functions: dict, key):
+    cands = derived_sum_columns(functions)
+    if not cands:
+        return None, None
+    for a, base in cands:
+        if a == key:
+            return a, make_override(a, base)
+    try:
+        a, base = cands[int(float(key) * len(cands)) % len(cands)]
+    except ValueError:
+        return None, None
+    return a, make_override(a, base)
 
 
 def resolve_name(functions: dict, frac) -> str:
